@@ -108,6 +108,10 @@ fn check(scn: &Scenario, rep: &mut Report) {
     rep.add("stream_items_taken", out.streams.values().map(|s| s.2).sum::<u64>());
     rep.add("streams_attached", out.streams.values().filter(|s| s.0).count() as u64);
     rep.add("handle_invocations", out.log.len() as u64);
+    if scn.wake {
+        rep.count("wake_driven_cases");
+        rep.add("wake_driven_waker_firings", out.wakes);
+    }
     let mut stats = std::collections::BTreeMap::new();
     let mut vs = check_reference("C10", scn, &out, &mut stats);
     for (k, n) in stats {
@@ -173,6 +177,7 @@ pub fn run(cfg: &Cfg) -> Report {
     for k in 0..n_small {
         let nconn = rng.range(1, 2);
         let mut b = build(&mut rng, nconn, 2, k % 3 == 0);
+        b.scn.wake = k % 2 == 1;
         let total = count_interleavings(&b.chains.iter().map(|c| c.len()).collect::<Vec<_>>());
         let cap = if miri { 6 } else { 3000 };
         if total <= cap {
@@ -202,6 +207,7 @@ pub fn run(cfg: &Cfg) -> Report {
     for k in 0..n_rand {
         let nconn = rng.range(1, 3);
         let mut b = build_cuts(&mut rng, nconn, 4, true, k % 4 == 3);
+        b.scn.wake = rng.chance(1, 3);
         let order = random_interleaving(&b.chains, &mut rng);
         let style = rng.below(3);
         b.scn.steps = order
